@@ -660,8 +660,8 @@ func (sema *ExprSemanticsChecker) checkArrayDeref(n *ArrayDerefNode) ExprType {
 	case AnyType:
 		return &ArrayType{AnyType{}, true}
 	case *ArrayType:
-		ty.Deref = true
-		return ty
+		// Do not modify `ty`. It may be shared with other expressions (e.g. type of matrix)
+		return &ArrayType{Elem: ty.Elem, Deref: true}
 	case *ObjectType:
 		// Object filtering is available for objects, not only arrays (#66)
 
